@@ -10,6 +10,7 @@ import (
 	"sort"
 	"strings"
 	"sync"
+	"time"
 
 	"github.com/ozanh/ugo"
 	ugostrings "github.com/ozanh/ugo/stdlib/strings"
@@ -62,6 +63,10 @@ func VMod() map[string]ugo.Object {
 		"by":   ugo.Bytes{0, 0, 0, 0},
 		"deep": ugo.Map{"a": ugo.Array{ugo.Map{"x": ugo.Int(0)}, ugo.Bytes{7}}},
 		"sm":   &ugo.SyncMap{Value: ugo.Map{"k": ugo.Int(0)}},
+		"em":   ugo.Map{}, // EMPTY containers must be copied per VM as well
+		"ea":   ugo.Array{},
+		"eb":   ugo.Bytes{},
+		"wrap": ugo.Map{"inner": ugo.Map{}, "list": ugo.Array{ugo.Map{}}},
 		"inc":  &ugo.Function{Name: "inc", Value: func(args ...ugo.Object) (ugo.Object, error) { return ugo.Int(len(args) + 1), nil }},
 	}
 }
@@ -368,6 +373,9 @@ func builtinContainers(r *gen.Rand) *Case {
 		"v.deep.a[0].x += n + 1\nv.deep.a[1][0] = n + 9\n",
 		"v.sm.k = n + 1\nv.sm[s] = n\n",
 		"v.n += n\n",
+		"v.em[s] = n + 1\nout = append(out, len(v.em), v.em[s])\n",
+		"v.wrap.inner[s] = n\nv.wrap.list[0].k = n + 2\nout = append(out, len(v.wrap.inner), v.wrap.list[0].k)\n",
+		"v.ea = append(v.ea, n)\nout = append(out, v.ea)\n",
 		"w := import(\"vmod\")\nw.arr[1] = n + 5\nout = append(out, v.arr[1])\n",
 	}
 	k := 2 + r.Intn(5)
@@ -377,7 +385,7 @@ func builtinContainers(r *gen.Rand) *Case {
 	if r.Bool() {
 		sb.WriteString("for i := 0; i < 50; i++ { v.arr[1] += 1; v.by[1] = (v.by[1] + 1) % 200; v.m.k += 1 }\n")
 	}
-	sb.WriteString("out = append(out, v.n, v.arr, v.m.k, v.by, v.deep.a[0].x, v.deep.a[1], v.sm.k, v.inc(1, 2))\nreturn out\n")
+	sb.WriteString("out = append(out, v.n, v.arr, v.m.k, v.by, v.deep.a[0].x, v.deep.a[1], v.sm.k, v.inc(1, 2), len(v.em), len(v.wrap.inner), len(v.wrap.list[0]))\nreturn out\n")
 	return &Case{Family: "builtin-containers", Src: sb.String(), Builtin: true}
 }
 
@@ -457,4 +465,60 @@ func Generate(r *gen.Rand, n int) []*Case {
 		cs = append(cs, f(r.Fork()))
 	}
 	return cs
+}
+
+// AbortIsolation: aborting ONE VM while it runs a callback through a pooled child VM
+// (strings.Map -> Invoker.Acquire/Release) must not disturb other VMs, neither while they run at
+// the same time nor afterwards, when their callbacks take child VMs from the same global pool.
+func AbortIsolation(rounds int) (problem string) {
+	c := &Case{Builtin: true, Src: `
+param (n, s)
+strings := import("strings")
+return strings.Map(func(ch) {
+	for i := 0; i < n; i++ { }
+	return ch
+}, s + "abc")
+`}
+	bc, _, err := c.CompileAny()
+	if err != nil {
+		return "compile: " + err.Error()
+	}
+	run := func(vm *ugo.VM, n int, s string) string {
+		ret, err := vm.Run(ugo.Map{}, ugo.Int(n), ugo.String(s))
+		if err != nil {
+			return "error: " + err.Error()
+		}
+		return ret.String()
+	}
+	for round := 0; round < rounds; round++ {
+		// victim: a long callback, aborted while it runs
+		victim := ugo.NewVM(bc)
+		started := make(chan struct{})
+		done := make(chan string, 1)
+		go func() { close(started); done <- run(victim, 50000000, "victim") }()
+		<-started
+		others := make(chan string, 4)
+		for k := 0; k < 4; k++ {
+			go func(k int) { others <- run(ugo.NewVM(bc), 10, fmt.Sprintf("o%d", k)) }(k)
+		}
+		time.Sleep(20 * time.Millisecond)
+		victim.Abort()
+		select {
+		case <-done:
+		case <-time.After(10 * time.Second):
+			return "the aborted VM did not return within 10 s"
+		}
+		for k := 0; k < 4; k++ {
+			if r := <-others; !strings.HasSuffix(r, "abc") || strings.HasPrefix(r, "error") {
+				return "a VM running concurrently with the aborted one returned " + r
+			}
+		}
+		// afterwards: callbacks of other VMs draw child VMs from the same pool
+		for k := 0; k < 8; k++ {
+			if r := run(ugo.NewVM(bc), 3, "later"); r != "laterabc" {
+				return fmt.Sprintf("after another VM was aborted, a new VM's callback run returned %q (want \"laterabc\")", r)
+			}
+		}
+	}
+	return ""
 }
